@@ -2,8 +2,8 @@ SPECIFICATION Spec
 CONSTANTS
   EffTokens = {"pa", "w", "wl"}
   MaxEff = 2
-  Modes = {"normal", "exc"}
-  FnModes = {"normal"}
+  Modes = {"normal", "exc", "consoleFail"}
+  FnModes = {"normal", "consoleFail"}
   MaxFns = 1
   Depth = 3
   InputOps = {}
@@ -14,6 +14,8 @@ CONSTANTS
   Blockeds = {"none"}
   Flags = {}
 INVARIANT Restored
+INVARIANT Contained
+INVARIANT NoSpuriousFb
 INVARIANT OutputLedger
 INVARIANT InputFifo
 CONSTRAINT Export
